@@ -1583,6 +1583,44 @@ def _norm_addr(t):
     return t
 
 
+def _stable(v, depth=0):
+    """order- and address-independent description of a module-level container"""
+    if depth > 5:
+        return "..."
+    if isinstance(v, (int, float, str, bytes, bool)) or v is None:
+        return repr(v)
+    if isinstance(v, dict):
+        return ["D"] + sorted([[_stable(k, depth + 1), _stable(x_, depth + 1)] for k, x_ in list(v.items())], key=repr)
+    if isinstance(v, (set, frozenset)):
+        return ["S"] + sorted([_stable(x_, depth + 1) for x_ in list(v)], key=repr)
+    if isinstance(v, (list, tuple)):
+        return ["L"] + [_stable(x_, depth + 1) for x_ in list(v)]
+    return "<%s %s>" % (type(v).__name__, getattr(v, "__name__", ""))
+
+
+def _globals_digest():
+    """{module: {name: digest}} of every module-level dict / list / set / tuple of the loaded xdis modules"""
+    out = {}
+    for name, mod in sorted(sys.modules.items()):
+        if not (name == "xdis" or name.startswith("xdis.")) or mod is None:
+            continue
+        d = {}
+        for attr, val in sorted(vars(mod).items()):
+            if attr.startswith("__") or not isinstance(val, (dict, list, set, frozenset, tuple)):
+                continue
+            if val is sys.modules or attr in ("loc",):
+                continue
+            try:
+                d[attr] = _digest(_stable(val))
+            except Exception as e:
+                d[attr] = "undigestable:%s" % type(e).__name__
+        out[name] = d
+    return out
+
+
+_API_CACHE = {}
+
+
 def do_hist_op(op):
     """One public operation of C18; returns a JSON-able, deterministic description of its result
     (an exception is a result too)."""
@@ -1650,6 +1688,41 @@ def do_hist_op(op):
             back = x.marsh.loads(marshal.dumps(co, op.get("ver", 2)))
             return {"type": type(back).__name__, "name": getattr(back, "co_name", None),
                     "code": hx(back.co_code) if hasattr(back, "co_code") else None}
+        if k == "globals":
+            return _globals_digest()
+        if k == "globals_after":
+            do_hist_op(op["op"])
+            return _globals_digest()
+        if k == "stdbc":
+            # an API object made once and kept (what a long-running tool does): its answers must not change because
+            # other API objects were made in between
+            import io
+            t = x.load.load_module(fpath(op["f"]))
+            vt = tuple(t[0][:2])
+            key = (vt, bool(t[4]))
+            if key not in _API_CACHE:
+                _API_CACHE[key] = x.std.make_std_api(vt, "pypy" if t[4] else None)
+            api = _API_CACHE[key]
+            ins = [[i.offset, i.opname, i.arg, _norm_addr(repr(i.argval)), i.is_jump_target] for i in api.get_instructions(t[3])]
+            out = io.StringIO()
+            api.dis(t[3], file=out)
+            return {"n": len(ins), "digest": _digest(ins), "dis": _digest(_norm_addr(out.getvalue())), "opname100": api.opname[100],
+                    "labels": sorted(set(api.findlabels(t[3].co_code)))[:50]}
+        if k == "showcode":
+            import io
+            t = x.load.load_module(fpath(op["f"]))
+            api = x.std.make_std_api(tuple(t[0][:2]), "pypy" if t[4] else None)
+            out = io.StringIO()
+            api.show_code(t[3], file=out)
+            txt = _norm_addr(out.getvalue())
+            # ... and the default destination, sys.stdout (its own code path)
+            import contextlib
+            out2 = io.StringIO()
+            with contextlib.redirect_stdout(out2):
+                api.show_code(t[3])
+            txt2 = _norm_addr(out2.getvalue())
+            return {"text": _digest(txt), "flags": [ln for ln in txt.splitlines() if ln.startswith("Flags")][:1],
+                    "stdout_text": _digest(txt2), "stdout_flags": [ln for ln in txt2.splitlines() if ln.startswith("Flags")][:1]}
         if k == "tables":
             seen = {}
             for key, m in x.op_imports.op_imports.items():
